@@ -730,6 +730,24 @@ impl Monitor for C13 {
                     );
                     return;
                 }
+                // the same through the variants, in both argument orders, also with a filter that lets nothing of the
+                // ordinary node through and a comparison that accepts everything
+                let abnormal_node = if !nss.is_empty() && rng.bool() { nss[rng.below(nss.len())].2 } else { x.2 };
+                let keep_nothing = rng.bool();
+                for (p, q, order) in [(abnormal_node, y.1, "abnormal-first"), (y.1, abnormal_node, "abnormal-second")] {
+                    let r = guard(|| (xot.advanced_deep_equal(p, q, |_| !keep_nothing, |_, _| true), xot.deep_equal_xpath(p, q, |_, _| true), xot.shallow_equal(p, q)));
+                    match r {
+                        Ok((false, false, false)) => ctx.count("abnormal_vs_ordinary_pairs"),
+                        other => {
+                            ctx.violation(
+                                "an attribute / namespace node compares equal to an ordinary node",
+                                format!("C13/variants/attribute-or-namespace-vs-ordinary/{}", order),
+                                J::obj().set("ordinary", y.0.to_json()).set("filter_keeps_nothing", J::Bool(keep_nothing)).set("advanced/xpath/shallow", J::s(format!("{:?}", other.map_err(|p| p.short())))),
+                            );
+                            return;
+                        }
+                    }
+                }
             }
         }
         // string_value
